@@ -146,6 +146,9 @@ FUNCTIONS = [
         'calls': {'self.get_level': 'get_level'}, 'free': {'always_print': 'bool', 'level': 'str', 'self.__level': 'int'}}),
     ('append_line', 'outputbuffer.py', 'OutputBuffer._print', {'unit': 'Logic4', 'extract': 'block', 'select': [('if-assigning', 'last_entry')],
         'free': {'buf': 'List[str]', 's': 'str', 'self.line_ended': 'bool'}, 'out': ['buf']}),
+    ('parse_mpint', 'readbuf.py', 'ReadBuf._parse_mpint', {'unit': 'Logic5'}),
+    ('mpint2_pad_fmt', 'readbuf.py', 'ReadBuf.read_mpint2', {'unit': 'Logic5', 'extract': 'block', 'select': [('assign', 'pad')],
+        'free': {'v': 'bytes'}, 'out': ['pad', 'f']}),
     ('is_print_ascii_char', 'utils.py', 'Utils.is_print_ascii', {'unit': 'Logic2', 'extract': 'lambda', 'params': ['int']}),
     # candidates that are outside the subset (kept in the table so that the reason is reported on every run)
     ('ctoi', 'utils.py', 'Utils.ctoi', {}),
@@ -819,6 +822,8 @@ class Tr:
             return self.percent_format(node, env, binds)
         a, ta = self.expr(node.left, env, binds)
         b, tb = self.expr(node.right, env, binds)
+        if isinstance(op, ast.Mult) and ta == BYTES and tb == INT:
+            return '(Py.repeatB %s %s)' % (a, b), BYTES
         if isinstance(op, ast.Add) and ta == tb and (ta in (STR, BYTES) or ta[0] == 'list'):
             return '(%s ++ %s)' % (a, b), ta
         if ta != INT or tb != INT:
@@ -961,6 +966,14 @@ class Tr:
         bad(node, 'call')
 
     def subscript(self, node, env, binds):
+        v = node.value
+        if isinstance(v, ast.Call) and dotted(v.func) == 'struct.unpack' and 'struct' not in env and len(v.args) == 2 and not v.keywords \
+                and isinstance(node.slice, ast.Constant) and node.slice.value == 0:
+            f, tf = self.expr(v.args[0], env, binds)
+            d, td = self.expr(v.args[1], env, binds)
+            if tf != STR or td != BYTES:
+                bad(node, 'struct.unpack of something other than (str format, bytes)')
+            return self.partial(node, binds, 'Py.unpack1 %s %s' % (f, d)), INT
         xs, tx = self.expr(node.value, env, binds)
         if not (tx in (STR, BYTES) or tx[0] == 'list'):
             bad(node, 'subscript of a value that is not a str / bytes / list')
@@ -1220,6 +1233,24 @@ class Tr:
                     return self.bind_var(keys[i], c, t, e, lambda e2: chain2(i + 1, e2))
                 return self.wrap(binds, chain2(0, env))
             tgt = s.targets[0]
+            if isinstance(tgt, ast.Tuple) and isinstance(s.value, ast.IfExp) and isinstance(s.value.body, ast.Tuple) and isinstance(s.value.orelse, ast.Tuple) \
+                    and len(s.value.body.elts) == len(tgt.elts) == len(s.value.orelse.elts):
+                # a, b = (x, y) if c else (u, v)
+                binds = []
+                c, tc = self.expr(s.value.test, env, binds)
+                if tc != BOOL:
+                    bad(s, 'condition that is not a bool')
+                va = [self.expr(e, env, None) for e in s.value.body.elts]
+                vb = [self.expr(e, env, None) for e in s.value.orelse.elts]
+                if [x[1] for x in va] != [x[1] for x in vb]:
+                    bad(s, 'conditional tuple assignment with branches of different types')
+                keys = [self.target_key(t) for t in tgt.elts]
+
+                def chain3(i, e):
+                    if i == len(keys):
+                        return self.block(rest, e, k)
+                    return self.bind_var(keys[i], '(if %s then %s else %s)' % (c, va[i][0], vb[i][0]), va[i][1], e, lambda e2: chain3(i + 1, e2))
+                return self.wrap(binds, chain3(0, env))
             if isinstance(tgt, ast.Tuple):
                 if not isinstance(s.value, ast.Tuple) or len(s.value.elts) != len(tgt.elts):
                     bad(s, 'tuple assignment whose right-hand side is not a tuple display of the same length')
@@ -1460,12 +1491,25 @@ class Tr:
         binds = []
         it = s.iter
         if isinstance(it, ast.Call) and isinstance(it.func, ast.Name) and it.func.id == 'range' and 'range' not in env:
-            if len(it.args) != 1 or it.keywords:
-                bad(s, 'range with more than one argument')
-            n, tn = self.expr(it.args[0], env, binds)
-            if tn != INT:
-                bad(s, 'range of a value that is not an int')
-            listterm, elt = 'Py.range %s' % n, INT
+            if len(it.args) == 3 and not it.keywords:
+                try:
+                    step = literal_value(it.args[2])
+                except ValueError:
+                    step = None
+                if type(step) is not int or step <= 0:
+                    bad(s, 'range whose step is not a positive literal')
+                ra, ta_ = self.expr(it.args[0], env, binds)
+                rb, tb_ = self.expr(it.args[1], env, binds)
+                if ta_ != INT or tb_ != INT:
+                    bad(s, 'range of values that are not ints')
+                listterm, elt = 'Py.range3 %s %s (%d : Int)' % (ra, rb, step), INT
+            else:
+                if len(it.args) != 1 or it.keywords:
+                    bad(s, 'range with two arguments')
+                n, tn = self.expr(it.args[0], env, binds)
+                if tn != INT:
+                    bad(s, 'range of a value that is not an int')
+                listterm, elt = 'Py.range %s' % n, INT
         else:
             c, t = self.expr(it, env, binds)
             if t[0] != 'list':
